@@ -1,1 +1,3 @@
 import PsModel.Util.Sexp
+import PsModel.Util.Hex
+import PsModel.Props.C19
